@@ -28,8 +28,13 @@
                       returns (new list, slot, displaced pair).
      l_extend ck N l items   fold of "insert, overflow = None" over items for
                       capacity N (Proofs/Bulk.v).
-     stable w w'      := self w' = self w /\ log w' = log w
      logged w w' evs  := log w' = log w ++ evs
+     ev_drops ids     := map EvDrop ids : the events "Drop::drop ran on the
+                      object with identity id", one per identity; the log is
+                      the ledger of destructions, so
+                      logged w w' (ev_drops (idK E k ++ idV E v))
+                      says: during the call exactly the key k and the value v
+                      were destroyed, each once, and nothing else.
      wp c Qn Qp w     c started in w does not reach UB; Qn holds of result and
                       final world on return, Qp of the world left by a panic.
      How to read a wp statement as "a full container panics":
@@ -37,9 +42,13 @@
            find_idx ... = None -> len (self w) < cap (self w)
        so from an absent key on a full container (len = cap) the call cannot
        return; UB is excluded by wp; hence it panics, and the panic clause
-       applies:  stable w w'  (container AND log untouched).  Conversely the
-       panic clause says it panics ONLY when the key is absent and len = cap -
-       so replacing a present key succeeds on a full container.
+       applies:  self w' = self w  (the container holds exactly its previous
+       entries) and  logged w w' (ev_drops (idK E k ++ idV E v))  (the
+       rejected key and value are destroyed exactly once: the model runs the
+       destructors of the locals a frame owns when a panic unwinds through
+       it).  Conversely the panic clause says it panics ONLY when the key is
+       absent and len = cap - so replacing a present key succeeds on a full
+       container.
        `debug : bool` is universally quantified: release exactly as debug.
 
    READING GUIDE (clause -> theorem)
@@ -55,6 +64,16 @@
                                                             C03_or_insert_with_lawful,
                                                             C03_or_insert_with_key_lawful
      VacantEntry::insert                                    C03_vac_insert_lawful
+     "the rejected key and value have been destroyed once": carried by the
+       panic clause of each of the seven theorems above
+       (logged w w' (ev_drops (idK E k ++ idV E v)); for or_insert_with* the
+       value is the one the closure produced, after its EvCall 2), and by the
+       checked_insert theorem for the non-panicking rejection.  For EVERY
+       environment (no Lawful): every panic of insert_ii is such a clean
+       rejection, nothing lost                             C03_insert_ii_strong
+       and Map::insert panics either by such a rejection or because the Drop
+       of a displaced key panicked after a successful replacement
+                                                            C03_insert_panic_cases
      extend / collect / From<[..;N]>  (Map)                 C03_extend_loop_lawful,
                                                             C03_from_iter_lawful
        exactly when it overflows: more distinct classes than N
@@ -79,11 +98,13 @@
        constant), C03_WF_len_le_cap
 
    PARTLY / NOT COVERED BY A THEOREM (left to the correspondence check)
-     - "the rejected key and value have been destroyed once" for the PANICKING
-       entry points: k and v are by-value arguments, destroyed by the unwinding
-       of the callee frame, which is outside the model (the model's log is
-       unchanged: stable w w').  Only checked_insert's rejection is logged and
-       proved here.  The harness's leak oracle observes the others.
+     - "the rejected key and value have been destroyed once" for the BULK entry
+       points: extend / collect (Map and Set) state on panic only WF, unchanged
+       capacity and "the list machine overflows"; that the overflowing item and
+       the items not yet yielded are destroyed once is in the model
+       (extend_loop unwinds them) but not stated by C03_extend_loop_lawful /
+       C03_from_iter_lawful / C03_s_*; the single-item entry points ARE covered
+       (see above).
      - extend_loop's panic clause gives WF + unchanged capacity + "the list
        machine overflows", not the exact content at the moment of the overflow
        (the items inserted before the overflowing one stay in the container;
@@ -96,7 +117,7 @@
 Require Import Model.Base Model.Slots Model.MapOps Model.EntryOps Model.SetOps Model.Fmt Model.Exec.
 Require Import Proofs.Hoare Proofs.Inv Proofs.Safety Proofs.Spec Proofs.Lawful Proofs.Lawful2
                Proofs.Lawful3 Proofs.EntrySpec Proofs.Bulk Proofs.FmtSerde Proofs.ExecSafe
-               Proofs.Legacy Proofs.Gaps.
+               Proofs.Legacy Proofs.Gaps Proofs.Owned.
 
 (* -------------------------------------------------------------------------- *)
 (* the insertion core and the three Map entry points                          *)
@@ -113,7 +134,8 @@ Theorem C03_insert_ii_lawful :
        (Spec.elems (self w'), fst r, snd r) = l_insert ck (Spec.elems (self w)) k v u /\
        (find_idx ck (ck k) (Spec.elems (self w)) = None -> len (self w) < cap (self w)))
     (fun w' : world K V T =>
-       stable w w' /\
+       self w' = self w /\
+       logged w w' (ev_drops (idK E k ++ idV E v)) /\
        find_idx ck (ck k) (Spec.elems (self w)) = None /\
        len (self w) = cap (self w))
     w.
@@ -137,7 +159,8 @@ Theorem C03_insert_lawful :
          | None => []
          end)
     (fun w' : world K V T =>
-       stable w w' /\
+       self w' = self w /\
+       logged w w' (ev_drops (idK E k ++ idV E v)) /\
        find_idx ck (ck k) (Spec.elems (self w)) = None /\
        len (self w) = cap (self w))
     w.
@@ -157,7 +180,8 @@ Theorem C03_insert_key_value_lawful :
        Spec.elems (self w') = fst (fst (l_insert ck (Spec.elems (self w)) k v true)) /\
        r = snd (l_insert ck (Spec.elems (self w)) k v true))
     (fun w' : world K V T =>
-       stable w w' /\
+       self w' = self w /\
+       logged w w' (ev_drops (idK E k ++ idV E v)) /\
        find_idx ck (ck k) (Spec.elems (self w)) = None /\
        len (self w) = cap (self w))
     w.
@@ -214,13 +238,15 @@ Theorem C03_or_insert_lawful :
        end)
     (fun w' : world K V T =>
        self w' = self w /\
+       logged w w' (ev_drops (idK E k ++ idV E v)) /\
        find_idx ck (ck k) (Spec.elems (self w)) = None /\
        len (self w) = cap (self w))
     w.
 Proof. exact (@or_insert_lawful). Qed.
 Print Assumptions C03_or_insert_lawful.
 
-(* the closure f is assumed not to panic here (panicking closures: C04) *)
+(* the closure f is assumed not to panic here (panicking closures: C04); on
+   overflow the value v destroyed with the key is the one the closure produced *)
 Theorem C03_or_insert_with_lawful :
   forall (K V Q T : Type) (E : env K V Q T) (debug : bool) (ck : K -> N) (cq : Q -> N),
   Lawful E ck cq ->
@@ -239,6 +265,9 @@ Theorem C03_or_insert_with_lawful :
        end)
     (fun w' : world K V T =>
        self w' = self w /\
+       (exists (v : V) (s s' : T),
+          f s = (Some v, s') /\
+          logged w w' ([EvCall 2] ++ ev_drops (idK E k ++ idV E v))) /\
        find_idx ck (ck k) (Spec.elems (self w)) = None /\
        len (self w) = cap (self w))
     w.
@@ -263,6 +292,9 @@ Theorem C03_or_insert_with_key_lawful :
        end)
     (fun w' : world K V T =>
        self w' = self w /\
+       (exists (v : V) (s s' : T),
+          f k s = (Some v, s') /\
+          logged w w' ([EvCall 2] ++ ev_drops (idK E k ++ idV E v))) /\
        find_idx ck (ck k) (Spec.elems (self w)) = None /\
        len (self w) = cap (self w))
     w.
@@ -283,7 +315,10 @@ Theorem C03_vac_insert_lawful :
        Spec.elems (self w') = Spec.elems (self w) ++ [(k, v)] /\
        i = length (Spec.elems (self w)) /\
        len (self w) < cap (self w))
-    (fun w' : world K V T => stable w w' /\ len (self w) = cap (self w))
+    (fun w' : world K V T =>
+       self w' = self w /\
+       logged w w' (ev_drops (idK E k ++ idV E v)) /\
+       len (self w) = cap (self w))
     w.
 Proof. exact (@vac_insert_lawful). Qed.
 Print Assumptions C03_vac_insert_lawful.
@@ -388,6 +423,55 @@ Theorem C03_keeps_insert_ii :
     w.
 Proof. exact (@keeps_insert_ii). Qed.
 Print Assumptions C03_keeps_insert_ii.
+
+(* every environment: EVERY panic of insert_ii (a panicking ==, the debug
+   assertion, the bounds check) is a clean rejection: container untouched, the
+   pair (k, v) destroyed exactly once (its Drop events appended to the log),
+   nothing lost; on return the ownership accounting of Props/C02.v holds.
+   (Owned.cpostN and Owned.rejected, unfolded:
+      acct E w w' ins outs lost :=
+        Permutation (owned E (self w') ++ outs ++ lost ++ dropped (log w'))
+                    (owned E (self w) ++ ins ++ dropped (log w))) *)
+Theorem C03_insert_ii_strong :
+  forall (K V Q T : Type) (E : env K V Q T) (debug : bool) (k : K) (v : V) (u : bool)
+         (w : world K V T),
+  WF (self w) ->
+  wp (insert_ii E debug k v u)
+    (fun (r : nat * option (K * V)) (w' : world K V T) =>
+       WF (self w') /\
+       cap (self w') = cap (self w) /\
+       exists lost : list N,
+         acct E w w' (ids_pair E (k, v))
+              (match snd r with Some p => ids_pair E p | None => [] end) lost /\
+         (Tidy (self w) -> lost = [] /\ Tidy (self w')))
+    (fun w' : world K V T =>
+       self w' = self w /\ log w' = log w ++ ev_drops (ids_pair E (k, v)))
+    w.
+Proof. exact (@insert_ii_strong). Qed.
+Print Assumptions C03_insert_ii_strong.
+
+(* every environment: how Map::insert can panic.  Either the pair was rejected
+   (container untouched, k and v destroyed exactly once), or the key was found,
+   the value was replaced (intermediate state w1, everything accounted for) and
+   the Drop of the displaced key half k' panicked *)
+Theorem C03_insert_panic_cases :
+  forall (K V Q T : Type) (E : env K V Q T) (debug : bool) (k : K) (v : V) (w : world K V T),
+  WF (self w) ->
+  wp (insert E debug k v)
+    (fun (_ : option V) (_ : world K V T) => True)
+    (fun w' : world K V T =>
+       (self w' = self w /\ log w' = log w ++ ev_drops (ids_pair E (k, v))) \/
+       (exists (w1 : world K V T) (k' : K) (v' : V),
+          (WF (self w1) /\
+           cap (self w1) = cap (self w) /\
+           exists lost : list N,
+             acct E w w1 (ids_pair E (k, v)) (ids_pair E (k', v')) lost /\
+             (Tidy (self w) -> lost = [] /\ Tidy (self w1))) /\
+          self w' = self w1 /\
+          log w' = log w1 ++ ev_drops (idK E k')))
+    w.
+Proof. exact (@insert_panic_cases). Qed.
+Print Assumptions C03_insert_panic_cases.
 
 (* history level: capacities constant, every register WF (hence len <= cap)
    after every call of every history, returned or panicked, every script *)
@@ -497,11 +581,12 @@ Example C03_example_full :
   find_idx kcls 9%N (Spec.elems (self (w_of m3))) = None.
 Proof. split; [exact m3_WF|]. split; vm_compute; reflexivity. Qed.
 
-(* new key (class 9) into the full map, RELEASE build: panics, container untouched *)
+(* new key (class 9) into the full map, RELEASE build: panics, container
+   untouched, the rejected key (id 9) and value (id 10) destroyed exactly once *)
 Example C03_example_insert_full_release :
   match insert (env_map {| sc_adv := false; sc_seed := 0; sc_fk := 0; sc_fa := 0 |}) false
                (k_ 9 9) (v_ 10 10) (w_of m3) with
-  | Panic w' => self w' = m3 /\ log w' = []
+  | Panic w' => self w' = m3 /\ log w' = [EvDrop 9; EvDrop 10]
   | _ => False
   end.
 Proof. vm_compute. split; reflexivity. Qed.
@@ -510,7 +595,7 @@ Proof. vm_compute. split; reflexivity. Qed.
 Example C03_example_insert_full_debug :
   match insert (env_map {| sc_adv := false; sc_seed := 0; sc_fk := 0; sc_fa := 0 |}) true
                (k_ 9 9) (v_ 10 10) (w_of m3) with
-  | Panic w' => self w' = m3 /\ log w' = []
+  | Panic w' => self w' = m3 /\ log w' = [EvDrop 9; EvDrop 10]
   | _ => False
   end.
 Proof. vm_compute. split; reflexivity. Qed.
@@ -518,10 +603,10 @@ Proof. vm_compute. split; reflexivity. Qed.
 Example C03_example_insert_cap0 :
   match insert (env_map {| sc_adv := false; sc_seed := 0; sc_fk := 0; sc_fa := 0 |}) false
                (k_ 9 9) (v_ 10 10) (w_of (new_map 0)) with
-  | Panic w' => self w' = new_map 0
+  | Panic w' => self w' = new_map 0 /\ log w' = [EvDrop 9; EvDrop 10]
   | _ => False
   end.
-Proof. vm_compute. reflexivity. Qed.
+Proof. vm_compute. split; reflexivity. Qed.
 
 (* checked_insert on the full map: None, nothing changed, key 9 and value 10 destroyed once *)
 Example C03_example_checked_insert_full :
